@@ -225,6 +225,9 @@ SCB = "new, filler L(<=6,<=4) with a content byte, scope with a workload of two 
 for name, inst, tags, tier in [
     ("scope_scoped_up1_b1", "scoped(), up, workload acquires chunk 2", ["b1"], "quick"),
     ("scope_scoped_down1_b1", "scoped(), down, workload acquires chunk 2", ["b1"], "thorough"),
+    ("scope_scoped_fill_up1_b1", "scoped(), up, workload L(24,8) + L(40..56,8) acquires chunk 2 AND fills it (stale position of the retained chunk leaves less room than the replayed request needs)", ["b1"], "quick"),
+    ("scope_checkpoint_fill_down1_b1", "checkpoint() + reset_to(), down, workload fills chunk 2", ["b1"], "thorough"),
+    ("scope_guard_drop_fill_up4_b1", "scope_guard() + drop, up, MIN_ALIGN 4, workload fills chunk 2", ["b1"], "thorough"),
     ("scope_guard_drop_up1_b1", "scope_guard() + drop", ["b1"], "thorough"),
     ("scope_guard_reset_up1_b0", "scope_guard() + reset() + second scope from the same guard", ["fail"], "quick"),
     ("scope_checkpoint_up1_b1", "checkpoint() + reset_to()", ["b1"], "thorough"),
@@ -359,6 +362,10 @@ for name, inst, tier, tags in [
     ("entry_handles_down8", "handles, down, MIN_ALIGN 8", "thorough", []),
     ("entry_twin_up1", "alloc(v) vs try_alloc(v)", "quick", []),
     ("entry_twin_down1", "alloc(v) vs try_alloc(v), down", "thorough", []),
+    ("entry_twin_with_closure_up1", "alloc_with(f) vs try_alloc_with(f) where f allocates on the same arena", "quick", []),
+    ("entry_twin_with_closure_down1", "same, down", "thorough", []),
+    ("entry_reserve_typed_vs_dyn_up1", "try_reserve(20) through Bump vs through &dyn BumpAllocatorCore, then one allocation", "quick", []),
+    ("entry_reserve_typed_vs_dyn_down1", "same, down", "thorough", []),
     ("entry_vec_typed_vs_dyn_up1", "BumpVec over &Bump vs over &dyn BumpAllocatorCoreScope: shrink_to_fit / into_boxed_slice", "thorough", []),
     ("entry_vec_typed_vs_dyn_nodealloc_up1", "same, DEALLOCATES = false, SHRINKS = true", "thorough", []),
     ("entry_vec_typed_vs_dyn_nodealloc_down4", "same, down, MIN_ALIGN 4, DEALLOCATES = false", "thorough", []),
@@ -450,6 +457,27 @@ for name, props, inst, tags, tier in [
 ]:
     A("vecs", name, props, inst, tags=tags, tier=tier, mem_gb=8, bounds="BumpVec with <= 4 elements in the 16-byte chunk, concrete shape, symbolic values / split point / follow-up; unwind 8")
 
+# C07 third round: formatted try_ allocations under refusal
+for name, inst, tier in [
+    ("fail_fmt_up1", "try_alloc_fmt(format_args!(\"{}\", 20-byte &str)) after a symbolic filler, base allocator refuses, up", "quick"),
+    ("fail_fmt_down1", "same, down", "thorough"),
+    ("fail_fmt_mut_up1", "try_alloc_fmt_mut, up", "thorough"),
+    ("fail_cstr_fmt_down1", "try_alloc_cstr_fmt, down", "thorough"),
+]:
+    A("failfmt", name, ["C07"], inst, tier=tier, mem_gb=8, timeout_s=1500, bounds="filler L(<=6,<=4), ONE formatted request of 20 bytes (cannot fit the 16-byte chunk) with budget 0; a single {} of a &str; unwind 6")
+
+# C15 third round: trait-object allocator on an unallocated arena; in-place map then finalise
+for name, inst, tier in [
+    ("mutvec_dyn_unallocated_up1", "MutBumpVec<[u8;3], &mut dyn MutBumpAllocatorCoreScope> on an UNALLOCATED arena (the vector creates the first chunk), 2 pushes, into_slice, up", "quick"),
+    ("mutvec_dyn_unallocated_down1", "same, down", "quick"),
+    ("mutvecrev_dyn_unallocated_up1", "MutBumpVecRev, same, up", "thorough"),
+    ("mutvecrev_dyn_unallocated_down1", "MutBumpVecRev, same, down", "thorough"),
+    ("mutvec_map_in_place_up1", "MutBumpVec<[u8;3]> (2 elements) after a symbolic filler <= 5 B, map_in_place -> [u8;2], into_slice, up", "thorough"),
+    ("mutvec_map_in_place_down1", "same, down (KNOWN FINDING: up to size_of::<U>() - 1 bytes wasted)", "quick"),
+]:
+    A("mutvec2", name, ["C15"], inst, tier=tier, mem_gb=8, timeout_s=1800, bounds="concrete shape (capacity 2, 2 pushes), symbolic values and filler; element [u8;3] (size does not divide the free range); unwind 5")
+    HARNESSES[-1]["unwind"] = 5
+
 # BumpVec on the real arena, ONE operation from an arbitrary state (bvec.rs; loop-free bodies, unwind 3)
 BVB = "BumpVec<u8 | D(1 byte)> with CONCRETE capacity (2..8) in the 16-byte chunk, SYMBOLIC length <= capacity and symbolic element values, buffer newest or followed by another block (concrete per harness); ONE operation with symbolic arguments; budget 0 (growth in place / by moving inside the chunk / clean failure); unwind 3 (shrink: 5 for the statistics walk; into_iter, splice: 6)"
 for name, props, inst, tags, tier in [
@@ -472,13 +500,13 @@ for name, props, inst, tags, tier in [
     ("bvec_shrink_up4_newest", ["C08", "C10", "C13", "C01", "C02"], "same, up, MIN_ALIGN 4, capacity 7", ["reclaim"], "thorough"),
     ("bvec_shrink_down1_blocked", ["C08", "C10", "C13"], "same, down, not the newest allocation: nothing reclaimed", [], "thorough"),
     ("bvec_shrink_up1_set_noshrink", ["C13", "C08"], "same, SHRINKS = false: allocated() never decreases", [], "thorough"),
-    ("bvec_split_push_up1", ["C16", "C08", "C01"], "split_off(..at | at..) then try_push on the split-off part (grows / moves), up", [], "quick"),
+    ("bvec_split_push_up1", ["C16", "C08", "C01"], "split_off(..at | at..) then try_push on the split-off part (grows / moves), up", [], "thorough"),
     ("bvec_split_shrink_up1", ["C16", "C08"], "split_off then shrink_to_fit of the split-off part, up", [], "thorough"),
     ("bvec_split_drop_up1", ["C16", "C08", "C13"], "split_off then drop of the split-off part (deallocate), up", [], "quick"),
     ("bvec_split_box_down1", ["C16", "C08"], "split_off then into_boxed_slice of the split-off part, down", [], "thorough"),
     ("bvec_split_push_down1", ["C16", "C08", "C01"], "split_off then try_push on the split-off part, down", [], "thorough"),
     ("bvec_split_drop_up8", ["C16", "C01", "C02", "C13"], "split_off then drop, up, MIN_ALIGN 8, capacity 8 (a part may end inside the min-align padding)", [], "thorough"),
-    ("bvec_split_push_up8", ["C16", "C01", "C02"], "split_off then try_push, up, MIN_ALIGN 8, capacity 8", [], "quick"),
+    ("bvec_split_push_up8", ["C16", "C01", "C02"], "split_off then try_push, up, MIN_ALIGN 8, capacity 8", [], "thorough"),
     ("bvec_push_drops_up1_newest", ["C06", "C08", "C13"], "BumpVec<D> (capacity 2): push / insert across growth moves (never drops); failed push consumes the value once; drop of the vector drops each once and gives the buffer back", [], "quick"),
     ("bvec_push_drops_down1_blocked", ["C06", "C08"], "same, down, blocked", [], "thorough"),
     ("bvec_push_drops_up1_full", ["C06", "C07"], "same, growth fails", ["fail"], "thorough"),
@@ -486,7 +514,7 @@ for name, props, inst, tags, tier in [
     ("bvec_splice_exact_fit_up1", ["C08"], "BumpVec<u8> capacity 4, 2 elements, splice(0..1, 3 elements): exact fit, no reallocation", [], "thorough"),
     ("bvec_splice_exact_fit_down1", ["C08"], "same, down", [], "thorough"),
 ]:
-    A("bvec", name, props, inst, tags=tags, tier=tier, mem_gb=8, timeout_s=1800, bounds=BVB)
+    A("bvec", name, props, inst, tags=tags, tier=tier, mem_gb=(20 if "split" in name else 10), timeout_s=(2400 if "split" in name else 1800), bounds=BVB)
     HARNESSES[-1]["unwind"] = 6 if ("into_iter" in name or "splice" in name) else (5 if ("shrink" in name or "drops" in name) else 3)
 
 # slice-level typed entry points (C10 position clause, C13 opt-out, C17 typed vs dyn, C01/C02 for shrink_slice)
